@@ -427,6 +427,21 @@ fn graph_family(c: &mut Cat, _rng: &mut Rng) {
         let mut po = dasp_graph::Processor::<G>::with_capacity(8);
         po.process(&mut outer, sink);
         c.measure("graph.nested_graph_node_with_wired_inputs_again", Z, || { for _ in 0..reps.min(300) { po.process(&mut outer, sink); } });
+        // the graph RE-PATCHED between two calls (same node and edge counts, capacities reserved): an edge into the nested
+        // node moved from a mono to a stereo source already in the graph (more channels than the inner inlet holds),
+        // an edge of the mixer moved, then processed again by the same long-lived processor
+        let wide = outer.add_node(NodeData::new2(BoxedNode::new(f)));
+        let spare = outer.add_node(NodeData::new1(BoxedNode::new(f)));
+        outer.add_edge(wide, sink, ()); outer.add_edge(spare, sink, ());
+        po.process(&mut outer, sink);                       // a graph of this size has now been processed once
+        let e = outer.find_edge(s1, nested).unwrap();
+        outer.remove_edge(e);
+        outer.add_edge(wide, nested, ());                   // same edge count as before
+        c.measure("graph.repatched_between_calls_same_size_again", Z, || { for _ in 0..reps.min(300) { po.process(&mut outer, sink); } });
+        let e = outer.find_edge(wide, nested).unwrap();
+        outer.remove_edge(e);
+        outer.add_edge(spare, nested, ());
+        c.measure("graph.repatched_back_to_mono_same_size_again", Z, || { for _ in 0..reps.min(300) { po.process(&mut outer, sink); } });
         bb(outer[sink].buffers[0][0]);
     }
     // a call that unwinds — a user node panics, or the documented panic for a missing node index — and
